@@ -155,6 +155,10 @@ def read_lines(path):
     return out
 
 
+def known_oracles(pid):
+    return ",".join(sorted({k["oracle"] for k in load_known() if k.get("property") == pid and k.get("status") == "known" and "oracle" in k}))
+
+
 def run_part(pid, part, tier, base_seed, nruns, wall_cap, outdir, workers=None, tag=""):
     """Runs one harness over run indices 0..nruns-1 on `workers` processes.  Returns list of result records."""
     exe = os.path.join(BUILD, "bin", "%s.%s" % (part["harness"], part["variant"]))
@@ -174,6 +178,8 @@ def run_part(pid, part, tier, base_seed, nruns, wall_cap, outdir, workers=None, 
         cmd = [exe, "--worker", "--base-seed", str(base_seed), "--from", str(frm), "--to", str(nruns), "--stride", str(W),
                "--tier", tier, "--out", out, "--replay-dir", os.path.join(VERIF, "replays"),
                "--sample-every", str(max(1, nruns // (W * 2))), "--deadline", str(wall_cap)]
+        if known_oracles(pid):
+            cmd += ["--known-oracles", known_oracles(pid)]
         errf = open(out + ".stderr", "ab")
         procs[w] = (subprocess.Popen(cmd, env=env, stdout=subprocess.DEVNULL, stderr=errf), out, errf)
 
@@ -207,7 +213,7 @@ def run_part(pid, part, tier, base_seed, nruns, wall_cap, outdir, workers=None, 
                 continue
             idx = pending[-1]
             sh([exe, "--crashmin", "--base-seed", str(base_seed), "--idx", str(idx), "--tier", tier, "--out", out,
-                "--replay-dir", os.path.join(VERIF, "replays")], env=env, stdout=subprocess.DEVNULL, stderr=subprocess.DEVNULL)
+                "--replay-dir", os.path.join(VERIF, "replays")] + (["--known-oracles", known_oracles(pid)] if known_oracles(pid) else []), env=env, stdout=subprocess.DEVNULL, stderr=subprocess.DEVNULL)
             if idx + W < nruns and time.time() - t0 < wall_cap:
                 start(w, idx + W)
     for w in range(W):
@@ -243,7 +249,8 @@ def replay_fresh(pid, variant_exe, path):
     env["ASAN_OPTIONS"] = "exitcode=77:detect_leaks=0:abort_on_error=0:allocator_may_return_null=1"
     env["UBSAN_OPTIONS"] = "halt_on_error=1:exitcode=77"
     env["MALLOC_PERTURB_"] = "165"
-    r = sh([variant_exe, "--replay", path], env=env, stdout=subprocess.PIPE, stderr=subprocess.DEVNULL, text=True)
+    extra = ["--known-oracles", known_oracles(pid)] if known_oracles(pid) else []
+    r = sh([variant_exe, "--replay", path] + extra, env=env, stdout=subprocess.PIPE, stderr=subprocess.DEVNULL, text=True)
     return r.returncode, r.stdout
 
 
@@ -267,6 +274,8 @@ def cmd_check(args):
     outdir = os.path.join(BUILD, "runs", pid)
     shutil.rmtree(outdir, ignore_errors=True)
     os.makedirs(outdir, exist_ok=True)
+    for old in glob.glob(os.path.join(VERIF, "replays", pid + "-*.json")):
+        os.remove(old)  # replay files belong to the run that wrote them
     known = load_known()
     all_recs, part_stats = [], []
     for part in c["parts"]:
@@ -294,6 +303,12 @@ def cmd_check(args):
             known_hit.setdefault(k["what"], []).append(r)
         else:
             unknown.append(r)
+    # known findings that the harness itself stepped over (fail_soft) so that the rest of the run stayed checked
+    for r in all_recs:
+        for orc, n in (r.get("known_hits") or {}).items():
+            for k in known:
+                if k.get("property") == pid and k.get("status") == "known" and k.get("oracle") == orc:
+                    known_hit.setdefault(k["what"], []).append(r)
     for what, rs in known_hit.items():
         lines.append("KNOWN-FINDING: property=%s %s (seen in %d runs, e.g. replay=%s)" % (pid, what, len(rs), rs[0].get("replay", "")))
     reported = set()
